@@ -28,8 +28,11 @@ def _range(a, b):
 MAXC = chr(0x2FFFF)
 
 
+RE_SORT = z3.ReSort(z3.StringSort())
+
+
 def _any():
-    return _range("\x00", MAXC)
+    return z3.AllChar(RE_SORT)
 
 
 def _dot():
@@ -65,6 +68,38 @@ def _cls_escape(c):
     if c.isalnum():
         raise Unsupported("escape \\%s" % c)
     return [_ch(c)]
+
+
+def _neg_class(parts):
+    """[^...] as an explicit union of ranges."""
+    ivs = []
+    for p in parts:
+        d = p.decl().name()
+        ch = p.children()
+        if d == "str.to_re" or d == "str.to.re" or d == "seq.to.re":
+            c = ord(_lit(ch[0]))
+            ivs.append((c, c))
+        elif d == "re.range":
+            ivs.append((ord(_lit(ch[0])), ord(_lit(ch[1]))))
+        else:
+            raise Unsupported("negated class member %s" % d)
+    ivs.sort()
+    out = []
+    lo = 0
+    for a, b in ivs:
+        if a > lo:
+            out.append((lo, a - 1))
+        lo = max(lo, b + 1)
+    if lo <= 0x2FFFF:
+        out.append((lo, 0x2FFFF))
+    return _union([_range(chr(a), chr(b)) for a, b in out])
+
+
+def _lit(zv):
+    s = zv.as_string()
+    if s.startswith("\\u{"):
+        return chr(int(s[3:-1], 16))
+    return s
 
 
 class _P:
@@ -145,7 +180,7 @@ class _P:
                     parts.append(_ch(d))
             u = _union(parts)
             if neg:
-                return z3.Intersect(z3.Complement(u), _any())
+                return _neg_class(parts)
             return u
         if c == ".":
             return _dot()
@@ -184,8 +219,8 @@ def items_to_re(items, top):
         if not items:
             return z3.Re(z3.StringVal(""))
         return z3.Concat(*items) if len(items) > 1 else items[0]
-    start = bool(items) and items[0] == ("anchor^",)
-    end = bool(items) and items[-1] == ("anchor$",)
+    start = bool(items) and isinstance(items[0], tuple) and items[0] == ("anchor^",)
+    end = bool(items) and isinstance(items[-1], tuple) and items[-1] == ("anchor$",)
     core = [it for it in items if not isinstance(it, tuple)]
     if len([it for it in items if isinstance(it, tuple)]) != int(start) + int(end):
         raise Unsupported("anchor in the middle")
@@ -197,12 +232,12 @@ def _finish(branch, mode):
     _, start, end, core = branch
     parts = []
     if mode == "search" and not start:
-        parts.append(z3.Star(_any()))
+        parts.append(z3.Full(RE_SORT))
     parts.extend(core)
     if end:
         parts.append(z3.Option(_ch("\n")))
     else:
-        parts.append(z3.Star(_any()))
+        parts.append(z3.Full(RE_SORT))
     if not parts:
         return z3.Re(z3.StringVal(""))
     return z3.Concat(*parts) if len(parts) > 1 else parts[0]
